@@ -205,6 +205,7 @@ func c16Shards(tier string) []engine.Shard {
 							h.PC = pc
 							wr.pc, wr.cfg = pc, pc.Config()
 							inputs.Each(func(in []byte) {
+								st.SetNote(fmt.Sprintf("%s %s input %q (direct and through Wrap, deviation bound %d)", pc.Kind, pc.JSON, in, bound))
 								h.Input = in
 								ex, pts := engine.Explore(bound, func(c *engine.Chooser) {
 									h.C = c
